@@ -3,6 +3,9 @@ Line-protocol engine `writebatch` (C26).
 op:
   wb <scratch> <isV4> <gso> <maxSeg> <dsts> <pkts> <script>
   wbq …same arguments…   the batch is queued in an overlay/batch.SendBatch (Reserve, Commit) and sent by Flush
+  reset <scratch> <isV4> <gso> <maxSeg> <dsts>   a fresh writer that the following `send` ops share: the GSO flag
+                                                  and the control side of the mmsghdr slots persist between them
+  send <pkts> <script>                           one WriteBatch on that writer
      dsts   : `<addrhex>:<port>;…`            destination table
      pkts   : `<len>@<dstIndex>,…` | `-`       the batch (bufs[k] has len bytes, addrs[k] = dsts[dstIndex])
      script : `<sent>:<ok|eio|other>,…` | `-`  results of the successive sendFn calls (`sent` is capped at the
@@ -54,15 +57,16 @@ def parseOutcome (s : String) : Option Outcome :=
 def errStr : Err → String
   | .none => "ok" | .eio => "eio" | .other => "other"
 
-def showEntry (pk : List (Pkt Dst)) (dsts : List Dst) (e : Entry) : String :=
+def showEntry (pk : List (Pkt Dst)) (dsts : List Dst) (ec : Entry × Option Nat) : String :=
+  let e := ec.1
   let p := pk[e.start]?
   let isZero := e.cnt == 1 && (p.map (·.len)).getD 1 == 0
   (if isZero then "z" else toString e.start) ++ "+" ++ toString e.cnt ++
-  (if e.cnt ≥ 2 then "x" ++ toString e.seg else "p") ++ "@" ++
+  (match ec.2 with | some sg => "x" ++ toString sg | none => "p") ++ "@" ++
   toString ((p.map (fun p => wireIdx dsts p.dst)).getD 999999)
 
 def showCall (pk : List (Pkt Dst)) (dsts : List Dst) (c : Call) : String :=
-  s!"{c.done}+{c.ents.length}:" ++ join "/" (c.ents.map (showEntry pk dsts)) ++ s!"=>{c.out.sent},{errStr c.out.err}"
+  s!"{c.done}+{c.ents.length}:" ++ join "/" ((c.ents.zip (c.ctl ++ List.replicate c.ents.length none)).map (showEntry pk dsts)) ++ s!"=>{c.out.sent},{errStr c.out.err}"
 
 def showResult (pk : List (Pkt Dst)) (dsts : List Dst) (r : Result) : String :=
   if r.overrun then "OVERRUN" else
@@ -146,36 +150,66 @@ def tagOf (pk : List (Pkt Dst)) (isV4 : Bool) (r : Result) (gso0 : Bool) : Strin
     "wb:" ++ (if runs then "gso" else "plain") ++ (if rejects then "+reject" else "") ++
       (if partials then "+partial" else "") ++ (if skips then "+skip" else "") ++ (if chunks > 1 then "+chunks" else "")
 
-def step (s : Unit) (args : List String) (impl : String) : Unit × Out :=
+/-- the writer: configuration, `w.gsoSupported`, and the control side of its mmsghdr slots. -/
+structure W where
+  n : Nat
+  isV4 : Bool
+  maxSeg : Int
+  dsts : List Dst
+  gso : Bool
+  ctl : Ctl
+
+/-- one `WriteBatch` on writer `w`: (model answer, verdict, tag, writer afterwards) -/
+def doBatch (w : W) (pkts script impl : String) (sfx : String) : Option (Out × W) :=
+  match parseList "," (parsePkt w.dsts) pkts, parseList "," parseOutcome script with
+  | some pks, some script =>
+    let pk := pks.map (·.1)
+    let cfg : Cfg Dst := { n := w.n, maxSeg := w.maxSeg, routable := routable w.isV4 }
+    let r := writeBatch cfg (scriptKern script) pk w.gso w.ctl
+    let m := showResult pk w.dsts r
+    let inp : Spec.Writebatch.SInput :=
+      { scratch := w.n, maxSeg := w.maxSeg, maxBytes := maxGSOBytes,
+        routable := fun d => ((w.dsts[d]?).map (routable w.isV4)).getD false,
+        pkts := pks.map (fun p => (p.1.len, wireIdx w.dsts p.1.dst)) }
+    let verdict :=
+      match parseTrace impl with
+      | none => if impl.startsWith "PANIC" then "bad wb-panic " ++ impl else "bad wb-unparsable"
+      | some t =>
+        match Spec.Writebatch.check inp t with
+        | some cls => "bad " ++ cls
+        | none => "ok"
+    some ({ model := m, verdict := verdict, tag := tagOf pk w.isV4 r w.gso ++ sfx }, { w with gso := r.gso, ctl := r.ctl })
+  | _, _ => none
+
+def mkW (n v4 gso maxSeg dsts : String) : Option W :=
+  match natArg n, natArg v4, natArg gso, intArg maxSeg, parseList ";" parseAddrPort dsts with
+  | some n, some v4, some gso, some maxSeg, some dsts =>
+    some { n := n, isV4 := v4 != 0, maxSeg := maxSeg, dsts := dsts, gso := gso != 0, ctl := List.replicate n none }
+  | _, _, _, _, _ => none
+
+def step (s : Option W) (args : List String) (impl : String) : Option W × Out :=
   match args with
+  | ["reset", n, v4, gso, maxSeg, dsts] =>
+    match mkW n v4 gso maxSeg dsts with
+    | some w => (some w, { model := "ok", verdict := "ok", tag := "triv:reset" })
+    | none => (none, badOp)
+  | ["send", pkts, script] =>
+    match s with
+    | some w =>
+      match doBatch w pkts script impl (if w.ctl.any (·.isSome) then "+stale" else "+seq") with
+      | some (o, w') => (some w', o)
+      | none => (s, badOp)
+    | none => (s, badOp)
   | [op, n, v4, gso, maxSeg, dsts, pkts, script] =>
     if op != "wb" && op != "wbq" then (s, badOp) else
-    match natArg n, natArg v4, natArg gso, intArg maxSeg, parseList ";" parseAddrPort dsts with
-    | some n, some v4, some gso, some maxSeg, some dsts =>
-      match parseList "," (parsePkt dsts) pkts, parseList "," parseOutcome script with
-      | some pks, some script =>
-        let isV4 := v4 != 0
-        let gso := gso != 0
-        let pk := pks.map (·.1)
-        let cfg : Cfg Dst := { n := n, maxSeg := maxSeg, routable := routable isV4 }
-        let r := writeBatch cfg (scriptKern script) pk gso
-        let m := showResult pk dsts r
-        let inp : Spec.Writebatch.SInput :=
-          { scratch := n, maxSeg := maxSeg, maxBytes := maxGSOBytes,
-            routable := fun d => ((dsts[d]?).map (routable isV4)).getD false,
-            pkts := pks.map (fun p => (p.1.len, wireIdx dsts p.1.dst)) }
-        let verdict :=
-          match parseTrace impl with
-          | none => if impl.startsWith "PANIC" then "bad wb-panic " ++ impl else "bad wb-unparsable"
-          | some t =>
-            match Spec.Writebatch.check inp t with
-            | some cls => "bad " ++ cls
-            | none => "ok"
-        (s, { model := m, verdict := verdict, tag := tagOf pk isV4 r gso ++ (if op == "wbq" then "+q" else "") })
-      | _, _ => (s, badOp)
-    | _, _, _, _, _ => (s, badOp)
+    match mkW n v4 gso maxSeg dsts with
+    | some w =>
+      match doBatch w pkts script impl (if op == "wbq" then "+q" else "") with
+      | some (o, _) => (s, o)
+      | none => (s, badOp)
+    | none => (s, badOp)
   | _ => (s, badOp)
 
-def main : IO Unit := runEngine () step
+def main : IO Unit := runEngine (none : Option W) step
 
 end Nebula.Driver.Writebatch
